@@ -1,5 +1,89 @@
-(* Props/C11.v -- placeholder until the theorems are in place *)
-From LV Require Import Base.Bytes Model.Obj Model.Edit.
-Theorem C11_placeholder : True.
-Proof. exact I. Qed.
-Print Assumptions C11_placeholder.
+(* Props/C11.v -- property C11: editing operations keep the document sound.
+   Statements only; proofs live in Proofs/EditProofs*.v.  The model is Model/Edit.v:
+   [step O d op] is one public editing call, [run_ops O d ops] a whole program. *)
+From LV Require Import Base.Bytes Model.Obj Model.DocQ Model.PageTree Model.Traverse Model.Edit
+  Spec.RenumberSpec Proofs.EditProofs Proofs.EditProofsEx.
+
+(* ------------------------------------------------------------------------------------------ *)
+(* Allocation.  [alloc_ok d]: max_id is at least every object number in use.  [doc_wf d]: the
+   representation invariant of the BTreeMap (keys strictly increasing).  [prog_dom]: every
+   set_object of the program targets an id at or below the cursor at that moment ("replace" an
+   object that exists or was handed out), every renumber_objects is inside the domain proved for
+   C10.  For EVERY program and every interleaving of the operations: *)
+
+(* (1) the invariant survives the whole program *)
+Theorem C11_alloc_invariant :
+  forall O ops d, doc_wf d -> alloc_ok d -> prog_dom O d ops ->
+    doc_wf (run_ops O d ops) /\ alloc_ok (run_ops O d ops).
+Proof. exact run_ops_inv. Qed.
+
+(* (2) an id handed out by new_object_id / add_object lies above the cursor, so under the invariant it
+   collides with no existing object -- not even with one of another generation -- and the cursor moves to it *)
+Theorem C11_alloc_fresh :
+  forall O d o d' id, step O d o = (d', OId id) ->
+    (d_max_id d < fst id)%N /\ d_max_id d' = fst id /\ snd id = 0%N /\
+    (alloc_ok d -> forall k, has_obj (d_objects d) k -> fst k <> fst id).
+Proof. exact alloc_fresh. Qed.
+
+(* (3) no object number is handed out twice, whatever is interleaved (delete, prune, content and resource
+   edits, ...); renumber_objects compacts the numbers and restarts the cursor, so the statement is per
+   renumbering-free program *)
+Theorem C11_alloc_no_collision :
+  forall O ops d, no_renumber ops -> prog_dom O d ops -> NoDup (map fst (handed_out O d ops)).
+Proof. exact alloc_no_collision. Qed.
+
+(* ------------------------------------------------------------------------------------------ *)
+(* Pruning removes exactly the objects that are not reachable from the trailer ([reach] is the
+   specification of Spec/RenumberSpec.v); every reachable object, the trailer and the cursor are unchanged;
+   and it always terminates (cyclic graphs included). *)
+Theorem C11_prune :
+  forall d d' ids, doc_wf d -> prune_objects d = Some (d', ids) ->
+    (forall id, In id ids <-> has_obj (d_objects d) id /\ ~ reach (d_trailer d) (d_objects d) id) /\
+    (forall id, reach (d_trailer d) (d_objects d) id -> lookup (d_objects d') id = lookup (d_objects d) id) /\
+    (forall id, ~ reach (d_trailer d) (d_objects d) id -> lookup (d_objects d') id = None) /\
+    d_trailer d' = d_trailer d /\ d_max_id d' = d_max_id d.
+Proof. exact I_prune. Qed.
+
+Theorem C11_prune_total : forall d, prune_objects d <> None.
+Proof. exact prune_total. Qed.
+
+(* ------------------------------------------------------------------------------------------ *)
+(* Frames of the allocation operations: nothing but the named object changes. *)
+Theorem C11_frame_new :
+  forall O d d' r, step O d NewObjectId = (d', r) -> d_objects d' = d_objects d /\ d_trailer d' = d_trailer d.
+Proof. exact frame_new. Qed.
+
+Theorem C11_frame_add :
+  forall O d x d' id, step O d (AddObject x) = (d', OId id) ->
+    d_trailer d' = d_trailer d /\ lookup (d_objects d') id = Some x /\
+    forall y, y <> id -> lookup (d_objects d') y = lookup (d_objects d) y.
+Proof. exact frame_add. Qed.
+
+Theorem C11_frame_set :
+  forall O d id x, let d' := fst (step O d (SetObject id x)) in
+    d_trailer d' = d_trailer d /\ d_max_id d' = d_max_id d /\ lookup (d_objects d') id = Some x /\
+    forall y, y <> id -> lookup (d_objects d') y = lookup (d_objects d) y.
+Proof. exact frame_set. Qed.
+
+(* ------------------------------------------------------------------------------------------ *)
+(* non-vacuity: a concrete document with a page tree and a program mixing allocation, replacement,
+   deletion and pruning meets the hypotheses; three ids are handed out, all different *)
+Theorem C11_example :
+  doc_wf ex_doc /\ alloc_ok ex_doc /\ prog_dom O0 ex_doc ex_ops /\ no_renumber ex_ops /\
+  handed_out O0 ex_doc ex_ops = [(8, 0); (9, 0); (10, 0)]%N /\
+  map fst (d_objects (run_ops O0 ex_doc ex_ops)) = [(1, 0); (2, 0); (4, 0); (5, 0); (6, 0)]%N /\
+  d_max_id (run_ops O0 ex_doc ex_ops) = 10%N.
+Proof.
+  destruct ex_hyps as [H1 [H2 [H3 H4]]]. destruct ex_run as [H5 [H6 H7]].
+  exact (conj H1 (conj H2 (conj H3 (conj H4 (conj H5 (conj H6 H7)))))).
+Qed.
+
+Print Assumptions C11_alloc_invariant.
+Print Assumptions C11_alloc_fresh.
+Print Assumptions C11_alloc_no_collision.
+Print Assumptions C11_prune.
+Print Assumptions C11_prune_total.
+Print Assumptions C11_frame_new.
+Print Assumptions C11_frame_add.
+Print Assumptions C11_frame_set.
+Print Assumptions C11_example.
